@@ -650,6 +650,10 @@ impl<'m> MCTPSMBusContext<'m> {
                 // Vendor defined, we don't know what to do
                 Ok(((msg_type, payload), None))
             }
+            MessageType::SpdmOverMctp | MessageType::SecuredMessages => {
+                // Not a control request, nothing to respond with
+                Ok(((msg_type, payload), None))
+            }
             _ => Err((MessageType::Invalid, DecodeError::Unknown)),
         }
     }
